@@ -33,9 +33,18 @@ def run(cmd, scratch, cpu, stdin=None):
     return vf.run(["prlimit", "--cpu=%d:%d" % (cpu, cpu + 5), "--"] + list(cmd), env=env(scratch), timeout=max(900, 40 * cpu))
 
 
+_NAMESPACES = {"abigail", "xml_reader", "xml_writer", "ir", "comparison", "dwarf_reader", "ctf_reader", "elf_reader", "tools_utils", "suppr", "symtab_reader",
+               "elf_helpers", "ini", "xml", "workers", "diff_utils", "hashing", "regex", "sptr_utils", "interned_string_pool", "abidiff", "(anonymous", "{anonymous}"}
+
+
 def norm_fn(fn):
-    fn = eh.short_fn(fn.replace("[abi:cxx11]", ""))
-    return fn[9:] if fn.startswith("abigail::") else fn
+    """stable name of a function: no arguments / template arguments / return type / ABI tag, and no libabigail namespace (the symbolizer omits the
+    namespaces of static functions, __FUNCTION__ omits everything): class::method or function"""
+    fn = eh.short_fn(fn.replace("[abi:cxx11]", "").replace("(anonymous namespace)", "{anonymous}"))
+    parts = fn.split("::")
+    while len(parts) > 1 and parts[0] in _NAMESPACES:
+        parts.pop(0)
+    return "::".join(parts)
 
 
 def _first_stack(err):
@@ -125,6 +134,7 @@ def classify(r):
         else:
             f, fo = _site(fr)
             res.update(ret="san", kind="san:asan:" + what, fn=f, foreign=fo)
+        res["needs_stack"] = not res["fn"]          # "<empty stack>": the sanitizer could not unwind (deep recursion); gdb can
         return res
     m = re.search(r"runtime error: ([^\n]*)", err)
     if m:
